@@ -253,3 +253,107 @@ def raise_unknown_call_argument(a: int) -> int:
     if a > 5:
         raise ValueError(hash(a))
     return a
+
+
+# ---- objects with mutable state, mutable builtin values (tools/py2lean.py "mstate") -------------------------------
+
+class Box:
+    __value: int
+    __items: list[int] | None
+
+    def bump(self) -> int:
+        self.__value += 1
+        return self.__value
+
+    def state_call_short_circuit(self, a: int) -> bool:
+        return (a > 0 and self.bump() > 3) == (a > 5)
+
+    def state_call_conditional(self, a: int) -> int:
+        return 1 + (self.bump() if a > 0 else 0)
+
+    def assign_readonly(self, a: int) -> int:
+        self.__value = a
+        return a
+
+    def none_into_plain_field(self) -> int:
+        self.__value = None
+        return 0
+
+    def forever(self, a: int) -> int:
+        while True:
+            a += self.bump()
+
+
+def alias_of_bytearray(n: int) -> int:
+    data = bytearray()
+    other = data
+    other.extend(bytes([n]))
+    return len(data)
+
+
+def extend_parameter(data: bytes, n: int) -> int:
+    data.extend(bytes([n]))
+    return len(data)
+
+
+def mutate_iterated(items: list[int]) -> int:
+    total = 0
+    for x in items:
+        items.append(x)
+        total += x
+    return total
+
+
+def list_loop_var_after(items: list[int]) -> int:
+    x = 0
+    for y in items:
+        x += y
+    return y
+
+
+def store_into_parameter(d: dict[int, int], k: int) -> int:
+    d[k] = 1
+    return len(d)
+
+
+def optional_used_as_int(x: int | None) -> int:
+    return x + 1
+
+
+def fuel_missing(n: int) -> int:
+    while n > 0:
+        n -= 1
+    return n
+
+
+# ---- try / except beyond "translate one exception into another" ------------------------------------------------------
+
+def try_falls_through(a: int) -> int:
+    try:
+        x = _raiser(a)
+    except ValueError as e:
+        raise OverflowError("x") from e
+    return x
+
+
+def try_bare_except(a: int) -> int:
+    try:
+        return _raiser(a)
+    except:  # noqa: E722
+        raise ValueError("x")
+
+
+def try_unknown_class(a: int) -> int:
+    try:
+        return _raiser(a)
+    except AttributeError as e:
+        raise ValueError("x") from e
+
+
+def try_finally(a: int) -> int:
+    try:
+        return _raiser(a)
+    except ValueError as e:
+        raise OverflowError("x") from e
+    finally:
+        a = 0
